@@ -80,10 +80,16 @@ def frame(rows, cols="AB", index=None, extra=False, reverse_columns=False):
     if "B" in cols:
         data["TRBV"] = [r[2] for r in rows]
         data["CDR3B"] = [r[3] for r in rows]
-    if extra:
+    if extra is True:
         data["Epitope"] = ["GILGFVFTL"] * len(rows)
         data["clone_count"] = list(range(len(rows)))
+    if extra == "stale":
+        # the table already carries CDR1/CDR2 columns (stale annotation): the loops of the row's V allele count, not these
+        for c, junk in (("CDR1A", "XXXXXX"), ("CDR2A", "YY"), ("CDR1B", "ZZZZZZZZ"), ("CDR2B", "")):
+            data[c] = [junk + "Q" * (i % 3) for i in range(len(rows))]
     df = pd.DataFrame(data)
+    if extra == "category":
+        df = df.astype("category")               # columns stored with pandas' category dtype
     if reverse_columns:
         df = df[list(reversed(list(df.columns)))]
     n = len(rows)
@@ -181,7 +187,7 @@ def k_metric(ctx, cls, w, anchors, comps, index=None, extra=False, cols="AB"):
                           outp.describe(), want[perm, :])
     # the caller edits its own anchor table in place (row 0 takes the content of the first comparison row) and asks the same
     # metric object again: the value depends on the rows' present contents only
-    if out.ok and list(anchors[0]) != list(comps[0]):
+    if out.ok and list(anchors[0]) != list(comps[0]) and extra != "category":
         names = {"TRAV": 0, "CDR3A": 1, "TRBV": 2, "CDR3B": 3}
         for col, k in names.items():
             if col in dfa.columns:
@@ -193,6 +199,37 @@ def k_metric(ctx, cls, w, anchors, comps, index=None, extra=False, cols="AB"):
         if not oute.ok or not np.array_equal(np.asarray(oute.value).astype(float), want_e):
             ctx.violation(f"{cls}:cdist:edited-table", "after the caller edited a row of its table in place, the same metric object does not return the distances of the present contents",
                           oute.describe(), want_e, {"weights": w})
+
+
+def k_selfbig(ctx, cls, w, distinct, n, np_seed, same_object=True):
+    """A few hundred rows drawn from a few distinct receptors; the very same table object as anchors and comparisons."""
+    import numpy as np
+    rng = random.Random(np_seed)
+    pick = [rng.randrange(len(distinct)) for _ in range(n)]
+    rows = [distinct[k] for k in pick]
+    D = _matrix(cls, w, distinct, distinct)
+    want = D[np.ix_(pick, pick)]
+    ctx.count("self_big_cases")
+    ctx.count(f"class:{cls}")
+    ctx.nontriv(["selfbig", cls, w, n, np_seed])
+    ctx.sample("selfbig", {"cls": cls, "weights": w, "n": n, "distinct": len(distinct)})
+    metric = _make(cls, w)
+    df = frame(rows)
+    other = df if same_object else frame(rows)
+    out = ctx.call(metric.calc_cdist_matrix, df, other)
+    if not out.ok:
+        ctx.violation(f"{cls}:cdist:selfbig:raised", "calc_cdist_matrix raised", out.describe(), None)
+        return
+    M = np.asarray(out.value).astype(float)
+    ctx.count("cdist_cells_checked", int(want.size))
+    if M.shape != want.shape or not np.array_equal(M, want):
+        bad = np.argwhere(M != want)[0].tolist() if M.shape == want.shape else None
+        ctx.violation(f"{cls}:cdist:selfbig:wrong-distance", f"{n}-row table against itself: cell {bad} is not the weighted sum (anchor i -> comparison j)",
+                      None if bad is None else float(M[bad[0], bad[1]]), None if bad is None else float(want[bad[0], bad[1]]), {"weights": w})
+    pv = ctx.call(metric.calc_pdist_vector, df)
+    iu = np.triu_indices(n, 1)
+    if not pv.ok or not np.array_equal(np.asarray(pv.value).astype(float), want[iu]):
+        ctx.violation(f"{cls}:pdist:selfbig:wrong", "calc_pdist_vector is not the condensed upper triangle of the self cdist", None, None)
 
 
 def k_additive(ctx, w, anchors, comps):
@@ -242,7 +279,7 @@ def k_reject(ctx, cls, bad, where):
         ctx.violation(f"{cls}:non-table:{where}:wrong-exception", f"a {bad} raised {type(out.exc).__name__}, not ValueError", out.describe(), "ValueError")
 
 
-KINDS = {"metric": k_metric, "additive": k_additive, "reject": k_reject}
+KINDS = {"selfbig": k_selfbig, "metric": k_metric, "additive": k_additive, "reject": k_reject}
 
 _AL = {}
 
@@ -310,6 +347,15 @@ def generate(tier, seed):
         big = {k: v for k, v in {"insertion_weight": 3, "deletion_weight": 5, "substitution_weight": 7, "alpha_weight": 100, "beta_weight": 90,
                                  "cdr1_weight": 60, "cdr2_weight": 80, "cdr3_weight": 100}.items() if k in ACCEPTS[cls]}
         yield "metric", {"cls": cls, "w": big, "anchors": WIT, "comps": WIT[:3]}, True          # entries beyond 65535
+    # stale CDR1/CDR2 columns already in the table; columns of category dtype with a dozen and more categories
+    for j, cls in enumerate(CLASSES):
+        rows14 = rand_rows(rng, 28, va, vb)
+        yield "metric", {"cls": cls, "w": rand_weights(rng, cls), "anchors": WIT, "comps": WIT[:4], "extra": "stale"}, True
+        yield "metric", {"cls": cls, "w": rand_weights(rng, cls), "anchors": rows14[:14], "comps": rows14[14:], "extra": "category"}, True
+    # a table of a few hundred rows against itself (same object), asymmetric insertion / deletion weights
+    for j, cls in enumerate(CLASSES if thorough else [CLASSES[seed % 6], CLASSES[(seed + 3) % 6]]):
+        w = {k: v for k, v in {"insertion_weight": 1 + j % 2, "deletion_weight": 3, "substitution_weight": 2, "alpha_weight": 2}.items() if k in ACCEPTS[cls]}
+        yield "selfbig", {"cls": cls, "w": w, "distinct": rand_rows(rng, 9, va, vb), "n": 300 if not thorough else 600, "np_seed": 9900 + seed + j, "same_object": j % 2 == 0}, True
     n_rand = 3000 * TS if thorough else 150
     for i in range(n_rand):
         cls = CLASSES[i % 6]
